@@ -76,6 +76,23 @@ class World:
             return inits[0][1]
         return None
 
+    def frozen_init(self, t):
+        """Initial value of an object that is never written afterwards (no `&mut` use, no element or field assignment): its value wherever it is
+        read.  None when the object is, or may be, modified after initialisation."""
+        init = self.obj_init(t)
+        if init is None:
+            return None
+        ev = self.ev(t[1])
+        fn = ev.fn
+        for (b, callee, argi, ap) in ev.events_on(t[2]):
+            tys = fn.blocks[b].term.get("arg_tys") or []
+            if argi < len(tys) and tys[argi].startswith("&mut"):
+                return None
+        for (b, i, k) in fn.defs().get(t[2], []):
+            if k in ("partial",):
+                return None
+        return init
+
     def obj_events(self, t, live=None):
         ev = self.ev(t[1])
         return ev.events_on(t[2])
